@@ -18,14 +18,14 @@ pub struct Case {
 // ---- reference environment -------------------------------------------------------------
 
 #[derive(Clone, Debug, PartialEq)]
-enum Binding {
+pub enum Binding {
     Known(Val),
     /// bound (or possibly bound) to something the model does not predict
     Unknown,
 }
 
 /// name = lower-cased *word sequence* ("a b" and "ab" are different names)
-type Env = BTreeMap<Vec<String>, Binding>;
+pub type Env = BTreeMap<Vec<String>, Binding>;
 
 #[derive(Clone, Debug, PartialEq)]
 enum Tok {
@@ -219,7 +219,7 @@ fn meant_to_fail(rhs: &str) -> bool {
 }
 
 /// model step: returns the prediction for the line's slot (None = unspecified) and updates env
-fn step(line: &str, env: &mut Env) -> Option<Option<Val>> {
+pub fn step(line: &str, env: &mut Env) -> Option<Option<Val>> {
     let l = line.trim();
     if l.is_empty() || l.starts_with('#') {
         return Some(None); // must be an empty slot
